@@ -469,10 +469,12 @@ def audit(theorems, modules, thorough=False):
         if rc != 0:
             problems.append('leanchecker failed: ' + out3[-500:])
     if not ok:
-        bad = build_failures(log)
-        rel = [m for m in bad if any(m == x or m.startswith(x) for x in modules)]
-        if rel:
-            problems.append('lake build failed for ' + ', '.join(rel))
+        # the library as a whole does not build: build exactly what this property's modules need (their imports
+        # included); stale .olean files of failed dependencies must not let the theorems count as re-checked
+        rc_p, out_p = run(['lake', 'build'] + list(modules), cwd=LEAN, timeout=7200)
+        if rc_p != 0:
+            bad = build_failures(out_p) or build_failures(log)
+            problems.append('lake build failed for ' + (', '.join(bad) if bad else 'the modules of this property'))
     return len(theorems), discharged, problems
 
 
@@ -481,6 +483,16 @@ def proof_coverage(res, theorems, modules, extra_obligations=0, extra_discharged
     if os.environ.get('VERIF_CHILD'):
         return []                                    # the parent run has audited the proofs
     n, d, problems = audit(theorems, modules, thorough=(res.tier == 'thorough'))
+    # the translators: a failed extraction leaves the previous tables on disk; the generated obligations would then be
+    # discharged for tables that do not come from the tree under test
+    ok_, log_ = ensure_built()
+    needs = {'larktables': ('C09', 'C10'), 'classes': ('C08',)}
+    for line in log_.splitlines():
+        if line.startswith('EXTRACT-FAILED'):
+            for key, pids in needs.items():
+                if (key in line or line.startswith('EXTRACT-FAILED:')) and res.pid in pids:
+                    problems.append('translation of the live code into PMC/Generated no longer works (%s): the generated '
+                                    'obligations are not re-checked against this tree' % line[:300])
     res.coverage.update({
         'obligations': n + extra_obligations,
         'discharged': d + extra_discharged,
